@@ -134,6 +134,25 @@ T9 = [
  ("C36","m1","internal/configwatcher/demo_test.go",{"C36":"shutdown_panicked"},"missed, then caught after strengthening (patch rebased onto fix 2819407, which the author's patch contained as its first half)","General.ConfigReloadInterval 0 in a third of the shutdown plans; a panic while the components are stopped is a violation of C36 (it was harness trouble: the panic happened on a goroutine of the harness and ended the process)","C36-m4"),
  ("C36","m2","internal/health/demo_test.go",{"C30":"reporting_subsystem_reported_dead"},"caught (by C30: the statement of C36 does not speak of readiness)","","C36-m5"),
 ]
+T10 = [
+ # wave 10 (/tmp/mutout10), same prompts as waves 8/9 for the remaining eight properties.
+ # Not stored (repeats): C15 m2 (= C15-m2), C30 m1 (= C30-m1), C34 m2 (= C34-m1).
+ ("C15","m1","collect/stress_relief_m1_demo_test.go",{"C15":"cluster_level_not_rms_of_recent_reports"},"missed, then caught after strengthening","RedisPeerManagement.ClusterName is set in a third of the plans (the simulated pubsub then prefixes topics as the Redis one does); the reference model was fed by deliveries to the node's subscription, so it agreed with a node that listens on the wrong topic: a message for a node that has no subscription on the topic it is meant to listen on now reaches the model all the same","C15-m5"),
+ ("C18","m1","internal/peer/demo_m1_test.go",{"C18":"membership_not_converged","C17":"nodes_disagree_on_owner"},"missed, then caught after strengthening","RedisPeerManagement.ClusterName is set in a third of the plans","C18-m6"),
+ ("C18","m2","internal/peer/demo_m2_test.go",{"C18":"membership_not_converged","C32":"queries_disagree"},"caught","","C18-m7"),
+ ("C30","m2","internal/health/demo_test.go",{"C30":"ready_without_all_subsystems_ready"},"caught","","C30-m5"),
+ ("C31","m1","collect/cache/demo_m1_test.go",{"C31":"kept_decision_wrong_rate_or_reason"},"missed, then caught after strengthening","recorded rates up to 2^32-1 (they had stopped at 1000)","C31-m6"),
+ ("C31","m2","collect/cache/demo_m2_test.go",{"C31":"dropped_decision_not_answered_dropped"},"missed, then caught after strengthening","reloads change DroppedSize (the resize operation had always passed the same one), also between a drop record and the burst that rotates the filters; the model gives every filter generation the size that was configured when it was created","C31-m7"),
+ ("C32","m1","generics/mapttl_zero_demo_test.go",{"C32":"queries_disagree"},"missed, then caught after strengthening","TTL 0 among the TTLs","C32-m5"),
+ ("C32","m2","generics/setttl_seq_demo_test.go",{"C32":"queries_disagree"},"missed, then caught after strengthening","a fifth of the plans start with staggered expiries: three to five items added a fraction of the TTL apart, then the clock goes from one expiry to the next with every query asked at each stop","C32-m6"),
+ ("C33","m1","metrics/demo_c33m1_test.go",{"C33":"history_not_linearizable"},"missed, then caught after strengthening","registrations of one name carry different descriptions and units","C33-m5"),
+ ("C33","m2","metrics/demo_c33m2_test.go",{"C33":"history_not_linearizable"},"missed, then caught after strengthening","the name of a stored value may be registered too (as a gauge)","C33-m6"),
+ ("C34","m1","agent/usage_toggle_demo_test.go",{"C34":"usage_lost"},"missed, then caught after strengthening","OpAMP.RecordUsage is switched off for a while and on again in a third of the plans, the counters growing meanwhile","C34-m4"),
+ ("C35","m1","transmit/demo_c35_m1_test.go",{"C35":"data_race","C26":"request_body_not_decodable"},"caught","","C35-m4"),
+ ("C35","m2","internal/health/demo_c35_m2_test.go",{"C35":"data_race"},"missed, then caught after strengthening","lifecycle sub-world: the subsystem reports once at start, runs may last longer than its timeout, and liveness/readiness probes arrive on goroutines of their own (three at a time), also right before the stop","C35-m5"),
+]
+if os.environ.get("WAVE") == "10":
+    T = T10
 if os.environ.get("WAVE") == "9":
     T = T9
 if os.environ.get("WAVE") == "8":
